@@ -1258,7 +1258,7 @@ func main() {
 	fmt.Printf("  pe_convert_coin       := %s;\n", path(kf, "convertCoinToEvmBornCoin", true))
 	fmt.Printf("  pe_convert_erc20      := %s;\n", path(kf, "convertCoinToEvmBornERC20", false))
 	fmt.Printf("  pe_bank_msg_send      := %s |}.\n", path(pf, "bankMsgSend", true))
-	fmt.Println("Definition current_paths : paths := strip current_paths_e.\n")
+	fmt.Print("Definition current_paths : paths := strip current_paths_e.\n\n")
 	fmt.Println("(** keeper.ERC20().Transfer *)")
 	fmt.Printf("Definition current_transfer_helper : transfer_helper :=\n  %s.\n\n", transferHelper(kf))
 	fmt.Println("(** guards of the two CreateFunToken paths, in source order *)")
